@@ -26,9 +26,9 @@ checks = [
     chk("C06", "wirelab", "exploration",
         "every decoder (frame codec, Frame::try_from, unbatching, string/bytes/bincode codecs, 5 decompressors and the subscriber's decompress->unbatch->decode pipeline) is run on complete finite sets of byte strings (all short strings, all strings over a boundary alphabet, every prefix / substitution / 8-byte-window overwrite of valid encodings) in child processes with a counting allocator, so panics, aborts and absurd allocation requests are all observable",
         W_NOTE + "; allocations inside C libraries are only bounded by RLIMIT_AS", "bounded-exhaustive input enumeration in fault-isolating child processes", "DESIGN.md §4 C06"),
-    chk("C07", "wirelab", "exploration",
-        "all strings up to length 5 (6) over a 14-character alphabet, all /ns/tp at the length and reserved-word boundaries and component pairs through the server-side rule, compared with a hand-written character-loop reference",
-        W_NOTE, "bounded-exhaustive input enumeration against a reference grammar", "DESIGN.md §4 C07"),
+    chk("C07", "wirelab+e2elab", "exploration",
+        "grammar half (wirelab): all strings up to length 5 (6) over a 14-character alphabet, all /ns/tp at the length and reserved-word boundaries and component pairs through the server-side rule, compared with a hand-written character-loop reference; server half (e2elab): 34 boundary names sent on the wire by a raw peer in all roles against the real server (Ok iff the reference accepts, invalid-topic error otherwise) and 6 pairs of near-identical valid names checked for traffic isolation",
+        W_NOTE + "; server half: scheduling not controlled, quiet windows for absence", "bounded-exhaustive input enumeration against a reference grammar, plus an exhaustive name/role matrix over the real server", "DESIGN.md §4 C07, §5 C07"),
     chk("C13", "wirelab", "exploration",
         "full grid of strategies x steps x factors x attempt counts x maximum delays; every schedule is drained under catch_unwind with overflow checks enabled and compared item by item with the law evaluated in saturating u128 nanoseconds",
         W_NOTE, "exhaustive enumeration of a finite configuration grid against a reference law", "DESIGN.md §4 C13"),
@@ -47,8 +47,8 @@ checks += [
     chk("C08", "routerlab", "model_checking", rtext("the C01/C02/C10 families with error answers enabled on every sink operation and error items / early ends on every stream, plus FanoutMany and Router driven directly with every answer vector") + "; oracle: no panic, healthy peers keep their full C01/C02 obligations, a failed replier is unbound and the next one serves", R_NOTE + "; at most one injected error per mock half", R_TECH, "DESIGN.md §3 C08"),
     chk("C09", "routerlab", "model_checking", rtext("all no-fault families of C01/C02/C10/C16 plus one-sided topologies (nobody, only subscribers, only publishers, only repliers, only requestors, replier leaves)") + "; oracles: step budget per poll (spin), 400-poll horizon (self-wake livelock), and a probe poll at every quiescent point that must make no observable progress (lost wake-up)", R_NOTE, R_TECH, "DESIGN.md §3 C09"),
     chk("C10", "routerlab", "model_checking", rtext("1-3 repliers registering at every point of an exchange, departures of the bound one, pending/wake of the rejected replier's sink, two late repliers in one poll") + "; oracle: never two bound, a rejection is justified by an earlier still-bound replier and consists of exactly one replier-already-bound error followed by a completed close, a replier registering after the bound one ended is bound and served", R_NOTE, R_TECH, "DESIGN.md §3 C10"),
-    chk("C11", "routerlab", "model_checking", rtext("every non-Message frame kind as 1st/2nd request or as a reply, requests that fit the frame limit only before the routing tag is added, all 8 kinds through the pub/sub router, each followed by a well-formed exchange") + "; oracle: no panic and the following exchange satisfies C01/C02", R_NOTE + "; router half only: the server's open/registration path (server.rs, topic/mod.rs) is not yet covered by a check", R_TECH, "DESIGN.md §3 C11"),
-    chk("C16", "routerlab", "model_checking", rtext("close of the registration channel at every point of the pub/sub and req/rep families (idle, item buffered, flush pending, one side only, rejected replier pending) followed by every pending/wake outcome of the sinks") + "; oracle: the router future completes once every sink can accept data, and every frame taken from a publisher was handed over and flushed to every healthy subscriber first", R_NOTE + "; router half only: Server::shutdown (close_channel + join) is not yet driven by a check", R_TECH, "DESIGN.md §3 C16"),
+    chk("C11", "routerlab+e2elab", "model_checking", rtext("every non-Message frame kind as 1st/2nd request or as a reply, requests that fit the frame limit only before the routing tag is added, all 8 kinds through the pub/sub router, each followed by a well-formed exchange") + "; oracle: no panic and the following exchange satisfies C01/C02", R_NOTE + "; server half (e2elab): first frame of every kind x topic state {fresh, pub/sub, req/rep} must be served (exercised with helper peers) or refused with an error code, follow-up frames of every kind per role, and the real client's open() against a fake server answering with every frame kind or closing; scheduling there is not controlled", R_TECH + " + exhaustive hostile-input matrix over the real server", "DESIGN.md §3 C11, §5 C11"),
+    chk("C16", "routerlab+e2elab", "model_checking", rtext("close of the registration channel at every point of the pub/sub and req/rep families (idle, item buffered, flush pending, one side only, rejected replier pending) followed by every pending/wake outcome of the sinks") + "; oracle: the router future completes once every sink can accept data, and every frame taken from a publisher was handed over and flushed to every healthy subscriber first", R_NOTE + "; server half (e2elab): the real server in a child process is brought into 11 states by raw peers, receives SIGINT and must exit with status 0 within 20 s", R_TECH + " + state matrix with SIGINT on the real server process", "DESIGN.md §3 C16"),
 ]
 
 E_NOTE = "scheduling inside tokio/quinn/the kernel is NOT controlled: what is enumerated exhaustively is the property's quantified dimension (configurations, reply orders, fault points and sequences); expected arrivals are awaited with generous ceilings (10-20 s), expected absences are short quiet windows (can only under-report); trusted base: quinn, rustls, loopback UDP"
